@@ -42,6 +42,9 @@ type cdpCfg struct {
 	lockers      bool
 	unsolicited  bool // occasional plain bank sends to module accounts
 	liquidateMsg bool
+	limitBids    bool // limit-bid deposit / withdraw / cancel with hostile amount and denom
+	reserve      bool // app reserve funds get topped up now and then
+	unsafeBias   bool // liquidate messages prefer vaults that are currently unsafe
 	maxGap       time.Duration
 }
 
@@ -318,6 +321,8 @@ func (r *cdpRunner) step() {
 		r.liquidateMsg(vaults)
 	case x < 860 && r.cfg.bids:
 		r.bidOp()
+	case x < 890 && r.cfg.limitBids:
+		r.limitBidOp()
 	case x < 900 && r.cfg.priceMoves:
 		r.priceMove()
 	default:
@@ -457,6 +462,22 @@ func (r *cdpRunner) liquidateMsg(vaults []vaulttypes.Vault) {
 		return
 	}
 	v := vaults[r.rnd.Intn(len(vaults))]
+	if r.cfg.unsafeBias && r.rnd.Intn(3) != 0 {
+		// prefer a vault that is currently on the unsafe side (harness-side exact valuation)
+		for _, c := range vaults {
+			p := r.u.prodByID[c.ExtendedPairVaultID]
+			pout, okOut := r.u.outPrice(p, r.last)
+			if p == nil || !okOut || !r.last.Active[p.In.ID] {
+				continue
+			}
+			X := exactValue(c.AmountIn.BigInt(), r.last.Price[p.In.ID], p.In.Dec)
+			Y := exactValue(c.AmountOut.Add(c.InterestAccumulated).Add(c.ClosingFeeAccumulated).BigInt(), pout, p.Out.Dec)
+			if below, ok := crBelow(X, Y, decRat(p.P.MinCr)); ok && below {
+				v = c
+				break
+			}
+		}
+	}
 	id := v.Id
 	if r.rnd.Intn(10) == 0 {
 		id += 1000 // invalid id
@@ -508,6 +529,10 @@ func (r *cdpRunner) bidOp() {
 	}
 	if len(d2) > 0 {
 		d := d2[r.rnd.Intn(len(d2))]
+		if !d.AuctionType {
+			r.englishBid(a, d)
+			return
+		}
 		rem := d.DebtToken.Amount // remaining target debt
 		var amt sdk.Int
 		switch r.rnd.Intn(6) {
@@ -568,4 +593,119 @@ func containsStr(s, sub string) bool {
 		}
 	}
 	return false
+}
+
+// englishBid bids on a generation-2 English-style auction (surplus / debt).
+func (r *cdpRunner) englishBid(a *sim.Acct, d auctionsV2types.Auction) {
+	lv := r.last.LockedV2[d.LockedVaultId]
+	factor := int64(1) // BidFactor 0.01 in the fixture
+	if lv.InitiatorType == "debt" {
+		// bids name the amount of collateral (governance token) the bidder accepts, decreasing; the bidder pays the fixed debt lot
+		cur := d.CollateralToken.Amount
+		var amt sdk.Int
+		switch r.rnd.Intn(6) {
+		case 0:
+			amt = cur // equal (non-improving once there is a bid)
+		case 1:
+			amt = cur.Sub(cur.MulRaw(factor).QuoRaw(100)) // barely improving
+		case 2:
+			amt = cur.Sub(cur.MulRaw(factor).QuoRaw(100)).AddRaw(1) // just not improving
+		case 3:
+			amt = cur.AddRaw(1)
+		default:
+			amt = cur.MulRaw(int64(50 + r.rnd.Intn(49))).QuoRaw(100)
+		}
+		if amt.IsNegative() {
+			amt = sdk.ZeroInt()
+		}
+		r.topUpDebt(a, d.DebtToken.Denom, d.DebtToken.Amount)
+		r.tx("bid_english_debt_v2", a, &auctionsV2types.MsgPlaceMarketBidRequest{AuctionId: d.AuctionId, Bidder: a.Addr.String(), Amount: sdk.NewCoin(d.CollateralToken.Denom, amt)},
+			fmt.Sprintf("auction=%d amt=%s cur=%s", d.AuctionId, amt, cur))
+		return
+	}
+	// surplus (or generic): bids are in the debt token of the auction record, increasing
+	cur := d.DebtToken.Amount
+	var amt sdk.Int
+	switch r.rnd.Intn(6) {
+	case 0:
+		amt = cur
+	case 1:
+		amt = cur.Add(cur.MulRaw(factor).QuoRaw(100)).AddRaw(1)
+	case 2:
+		amt = cur.Add(cur.MulRaw(factor).QuoRaw(100)).SubRaw(1)
+	case 3:
+		amt = sdk.NewInt(int64(1 + r.rnd.Intn(1000)))
+	default:
+		amt = cur.MulRaw(int64(102 + r.rnd.Intn(100))).QuoRaw(100).AddRaw(int64(r.rnd.Intn(100000)))
+	}
+	if amt.IsNegative() {
+		amt = sdk.ZeroInt()
+	}
+	r.tx("bid_english_surplus_v2", a, &auctionsV2types.MsgPlaceMarketBidRequest{AuctionId: d.AuctionId, Bidder: a.Addr.String(), Amount: sdk.NewCoin(d.DebtToken.Denom, amt)},
+		fmt.Sprintf("auction=%d amt=%s cur=%s", d.AuctionId, amt, cur))
+}
+
+// limitBidOp issues limit-bid deposit / withdraw / cancel messages; withdrawals carry attacker-chosen amount and denom.
+func (r *cdpRunner) limitBidOp() {
+	u := r.u
+	a := r.pickAcct()
+	debt := u.byDenom[[]string{"ucmst", "ucmst", "ucmtw"}[r.rnd.Intn(3)]]
+	coll := u.byDenom[[]string{"uatom", "ucmdx", "weth-wei", "wbtc-sat"}[r.rnd.Intn(4)]]
+	prem := sdk.NewInt(int64([]int{0, 1, 5, 10, 17, 30, 31}[r.rnd.Intn(7)]))
+	var mine []auctionsV2types.LimitOrderBid
+	for _, lb := range r.last.LimitBids {
+		if lb.BidderAddress == a.Addr.String() {
+			mine = append(mine, lb)
+		}
+	}
+	custody := func(d string) sdk.Int { return sdk.NewIntFromBigInt(r.last.bal(modLabel(auctionsV2types.ModuleName), d)) }
+	k := r.rnd.Intn(10)
+	switch {
+	case k < 4 || len(mine) == 0:
+		bal := r.last.bal(a.Name, debt.Denom)
+		if bal.Sign() <= 0 {
+			r.topUpDebt(a, debt.Denom, sdk.NewIntFromBigInt(debt.Dec).MulRaw(5))
+			bal = r.last.bal(a.Name, debt.Denom)
+		}
+		amt := r.amt(new(big.Int).Quo(bal, big.NewInt(4)))
+		r.tx("limit_deposit", a, &auctionsV2types.MsgDepositLimitBidRequest{CollateralTokenId: coll.ID, DebtTokenId: debt.ID, PremiumDiscount: prem, Bidder: a.Addr.String(), Amount: sdk.NewCoin(debt.Denom, amt)},
+			fmt.Sprintf("coll=%d debt=%d prem=%s amt=%s", coll.ID, debt.ID, prem, amt))
+	case k < 8:
+		lb := mine[r.rnd.Intn(len(mine))]
+		dep := lb.DebtToken.Amount
+		denom := lb.DebtToken.Denom
+		var amt sdk.Int
+		cls := ""
+		switch r.rnd.Intn(8) {
+		case 0:
+			amt, cls = dep, "all"
+		case 1:
+			amt, cls = dep.AddRaw(1), "deposit+1"
+		case 2:
+			amt, cls = custody(denom), "whole-custody"
+		case 3: // another denom the module holds (seized collateral)
+			for _, d := range []string{"uatom", "ucmdx", "weth-wei", "wbtc-sat", "uharbor"} {
+				if custody(d).IsPositive() {
+					denom = d
+				}
+			}
+			amt, cls = sdk.MinInt(custody(denom), dep), "other-denom"
+			if !amt.IsPositive() {
+				amt = sdk.NewInt(1)
+			}
+		case 4:
+			amt, cls = dep.MulRaw(1000), "1000x"
+		default:
+			amt, cls = r.amt(new(big.Int).Quo(dep.BigInt(), big.NewInt(2))), "partial"
+		}
+		if !amt.IsPositive() {
+			amt = sdk.NewInt(1)
+		}
+		r.tx("limit_withdraw", a, &auctionsV2types.MsgWithdrawLimitBidRequest{CollateralTokenId: lb.CollateralTokenId, DebtTokenId: lb.DebtTokenId, PremiumDiscount: lb.PremiumDiscount, Bidder: a.Addr.String(), Amount: sdk.NewCoin(denom, amt)},
+			fmt.Sprintf("class=%s coll=%d debt=%d prem=%s amt=%s%s deposit=%s", cls, lb.CollateralTokenId, lb.DebtTokenId, lb.PremiumDiscount, amt, denom, dep))
+	default:
+		lb := mine[r.rnd.Intn(len(mine))]
+		r.tx("limit_cancel", a, &auctionsV2types.MsgCancelLimitBidRequest{CollateralTokenId: lb.CollateralTokenId, DebtTokenId: lb.DebtTokenId, PremiumDiscount: lb.PremiumDiscount, Bidder: a.Addr.String()},
+			fmt.Sprintf("coll=%d debt=%d prem=%s", lb.CollateralTokenId, lb.DebtTokenId, lb.PremiumDiscount))
+	}
 }
